@@ -10,4 +10,5 @@ Definition entry (cmd : Z) (args : list Z) : list Z :=
   if cmd =? 11 then entry_spec args else
   if cmd =? 12 then entry_match_repush args else
   if cmd =? 13 then entry_events args else
+  if cmd =? 30 then entry_computed args else
   [-999].
